@@ -186,16 +186,16 @@ Fixpoint nodupb (l : list Z) : bool :=
 
 Definition ys_of (l : list prow) : list Z := map r_y l.
 
+Fixpoint ins_ks (k a : Z) (acc : list (Z * Z)) : list (Z * Z) :=
+  match acc with
+  | [] => [(k, a)]
+  | (k', a') :: t => if k =? k' then (k', a' + a) :: t else (k', a') :: ins_ks k a t
+  end.
+
 Fixpoint sum_by_ks (l : list (Z * Z)) (acc : list (Z * Z)) : list (Z * Z) :=
   match l with
   | [] => acc
-  | (k, a) :: r =>
-      sum_by_ks r
-        ((fix ins (acc : list (Z * Z)) : list (Z * Z) :=
-            match acc with
-            | [] => [(k, a)]
-            | (k', a') :: t => if k =? k' then (k', a' + a) :: t else (k', a') :: ins t
-            end) acc)
+  | (k, a) :: r => sum_by_ks r (ins_ks k a acc)
   end.
 
 Definition find_mq (id : Z) (l : list mquote) : option mquote := find (fun q => mq_id q =? id) l.
